@@ -1,6 +1,7 @@
 import Srctools.Proofs.C16
 import Srctools.Proofs.C16Bin
 import Srctools.Proofs.C16Lazy
+import Srctools.Proofs.C16LazyHist
 import Srctools.Proofs.C16KVFinal
 import Srctools.Gen.Tok
 import Srctools.Gen.Fgdw
@@ -289,6 +290,26 @@ theorem C16_lazy_full_load (qs : List Name) :
   exact ⟨(loadAll_after_queries wf p qs).1, h.2.1, h.1⟩
 
 end LazyDB
+
+section LazyHist
+open C16.Lazy
+
+/-- **Histories with edits.** Callers may do anything to the values earlier lookups returned
+(`HOp.edit i f`, `f` arbitrary): what the queries of the history return is what the same queries return
+with every edit removed … -/
+theorem C16_lazy_history_independent (S : Static) (s0 : State) (ops : List HOp) :
+    (runHist S s0 ops).seen = results S s0 (queriesOf ops) :=
+  hist_independent S s0 ops
+
+/-- … and on a fresh well-formed database every query of every such history returns the value of the
+full load of the pristine database.  (In the model results are values; for the code this is the
+deep-copy discipline of `engine_def` / `engine_dbase` / `get_fgd`, tied by the id-walk of the harness.) -/
+theorem C16_lazy_history {S : Static} (wf' : WF S) (p : Nat) (ops : List HOp) :
+    (runHist S (initState S p) ops).seen
+      = (queriesOf ops).map fun q => (loadAll S (initState S p)).slot q :=
+  hist_eq_loadAll wf' p ops
+
+end LazyHist
 
 /-! ## (i') long strings without custom syntax (`extended=False`): the weaker law
 
